@@ -22,6 +22,7 @@ fn main() {
 		"client_survives_hostile_ids" => probes::client_survives_hostile_ids(),
 		"client_subscription_array_equals_single" => probes::client_subscription_array_equals_single(),
 		"registry_atomicity" => probes::registry_atomicity(),
+		"ws_request_limit_paths" => probes::ws_request_limit_paths(),
 		_ => json!({"probe": name, "error": "unknown probe"}),
 	};
 	println!("{}", res);
